@@ -28,6 +28,8 @@ HEAD = subprocess.run(['git', '-C', '/repo', 'rev-parse', '--short', 'HEAD'], ca
 jobs = []
 for p in sorted(glob.glob(os.path.join(ROOT, 'mutants', '*', '*.diff'))):
     pid = os.path.basename(os.path.dirname(p))
+    if pid == 'equivalent':
+        continue
     jobs.append((pid, 'mutant', os.path.basename(p)[:-5], p))
 for d in sorted(glob.glob(os.path.join(ROOT, 'seeded', '*'))):
     pid = os.path.basename(d).split('-')[0]
